@@ -118,6 +118,9 @@ func TestC14(t *testing.T) {
 			if n >= 3 && rapid.Bool().Draw(t, "with_prelude") {
 				c.Prelude = rapid.IntRange(1, minInt(3, n-2)).Draw(t, "prelude")
 				overLimit := rapid.Bool().Draw(t, "prelude_over_limit")
+				if overLimit && rapid.IntRange(0, 2).Draw(t, "prelude_one_proc") > 0 {
+					c.Procs = 1 // what sync.Pool hands out then does not depend on goroutine placement
+				}
 				if rapid.Bool().Draw(t, "all_inflate") || overLimit {
 					// everyone sends gzip and the backend takes none: every RPC of the batch goes through
 					// the transcoder's decompressor pool
